@@ -254,11 +254,11 @@ def check_suspension(ctx, f, s_p, qmap, admissibility_only=False):
     P = ctx.P
     g = cfg_of(f, subst_env=False)
     # (5) who may construct Suspend
-    allowed = {(PRIO, f.qual), (REST, "_parse_suspensions")}
     sites = [(fn_, c) for fn_, c in package_calls(P, "Suspend") if isinstance(c.func, ast.Name)]
     ctx.count_min("Suspend( construction sites in the package", len(sites), 2)
     for fn_, c in sites:
-        ok = (fn_.mod.rel, fn_.qual) in allowed
+        # the priority scheduler itself, or the REST bridge module (whose functions only decode what an external scheduler decided)
+        ok = (fn_.mod.rel == PRIO and fn_.qual == f.qual) or fn_.mod.rel == REST
         ctx.ob(5, "K1", "containers are suspended only by the priority scheduler (the REST bridge merely decodes external decisions)", ok, fn_, c, detail=f"Suspend( in {fn_.mod.rel}::{fn_.qual}")
     qq = [q for q, m in qmap.items() if m == "QUERY"]
     qry = f"{s_p}.{qq[0]}" if qq else f"{s_p}.qry_jobs"
@@ -478,6 +478,11 @@ def run(ctx):
     f, s_p, qmap, ql = check_queue_order(ctx)
     check_priority_pool_order(ctx)
     check_new_work_queued(ctx, f, s_p)
+    sched.ob_no_mutation_while_iterating(ctx, 2, "priority", "priority")
+    sched.ob_no_mutation_while_iterating(ctx, 2, "priority-pool", "priority-pool")
+    # which operators are "ready, pending" is what get_ops says: it must list every operator that qualifies (C01#7/#8)
+    from . import c01
+    c01.check_get_ops(Renumber(ctx, {7: 3, 8: 3}))
     check_job_loop(ctx, f, s_p, ql)
     check_pool_choice(ctx, f, s_p)
     check_suspension(ctx, f, s_p, qmap)
